@@ -170,3 +170,39 @@ def stub_create_atom_r(self, atomname, newcoords):
     a.z = newcoords[2]
     self.atoms.append(a)
     self.map[atomname] = a
+
+
+# ---------------------------------------------------------------- make_water_with_one_bond: the second hydrogen of a water
+# The new atom is placed from the oxygen and the hydrogen already there against the water template (O and H1 -> H2), is
+# created at exactly the coordinates the placement returned, and is bonded to the oxygen both ways, once; the atoms
+# already there do not move.  (The new atom has no cell: the caller registers it - cellproto.py.)
+contract(
+    "pdb2pqr.hydrogens.optimize:Optimize.make_water_with_one_bond", ["C05", "C14"],
+    params={"cls": Const(None),
+            "atom": Ref("w_o"),
+            "addname": Enum("H1", "H2", "LP1"),
+            "_res": Named("wres", Obj("pdb2pqr.aa:WAT", name=Const("HOH"), atoms=Items(Ref("w_o"), Ref("w_h")),
+                                      map=DictOf(("O", Named("w_o", Obj("pdb2pqr.structures:Atom", name=Const("O"), x=Real, y=Real, z=Real,
+                                                                        bonds=Items(Ref("w_h")), residue=Ref("wres")))),
+                                                 ("HX", Named("w_h", Obj("pdb2pqr.structures:Atom", name=Const("HX"), x=Real, y=Real, z=Real,
+                                                                         bonds=Items(Ref("w_o")), residue=Ref("wres"))))),
+                                      pool=Items(Obj("pdb2pqr.structures:Atom", name=Const("??"), x=Real, y=Real, z=Real, bonds=Items(), cell=Const(None))),
+                                      reference=Obj("pdb2pqr.definitions:DefinitionResidue", map=DictOf(
+                                          REFA("t_o", "O"), REFA("t_h1", "H1"), REFA("t_h2", "H2")))))},
+    requires=[],
+    ensures=[
+        "len(calls_of('find_coordinates')) == 1 and calls_of('find_coordinates')[0].args['numpoints'] == 2",
+        "atp(calls_of('find_coordinates')[0].args['refcoords'][0], w_o) and atp(calls_of('find_coordinates')[0].args['refcoords'][1], w_h)",
+        "atp(calls_of('find_coordinates')[0].args['defcoords'][0], t_o) and atp(calls_of('find_coordinates')[0].args['defcoords'][1], t_h1)",
+        "atp(calls_of('find_coordinates')[0].args['defatomcoords'], t_h2)",
+        "addname in wres.map and atp(calls_of('find_coordinates')[0].ret, wres.map[addname]) and wres.map[addname].cell is None",
+        "len(wres.atoms) == 3 and wres.atoms[0] is w_o and wres.atoms[1] is w_h",
+        # bonded to the oxygen, both ways, once each; the hydrogen already there keeps its single bond
+        "len(w_o.bonds) == 2 and w_o.bonds[0] is w_h and w_o.bonds[1] is wres.map[addname]",
+        "len(wres.map[addname].bonds) == 1 and wres.map[addname].bonds[0] is w_o and len(w_h.bonds) == 1",
+        "w_o.x == old(w_o.x) and w_o.y == old(w_o.y) and w_o.z == old(w_o.z) and w_h.x == old(w_h.x) and w_h.y == old(w_h.y) and w_h.z == old(w_h.z)",
+    ],
+    stubs={"pdb2pqr.aa:WAT.create_atom": "stub_create_atom_r"},
+    trace={"pdb2pqr.quatfit:find_coordinates": TupleOf(Real, Real, Real)},
+    name="make_water_with_one_bond", native=False,
+)
